@@ -167,8 +167,8 @@ def execute(scn):
                           'envs': [{k: (v if k != 'history' else [h['kind'] for h in v])
                                     for k, v in e.items()} for e in scn['envs']]}
         if base['status'] == 'ok':
-            r0, r1 = base['runs']
-            if r0 != r1:
+            r0, r1, r2, r3 = base['runs']
+            if r0 != r1 or r2 != r3:
                 res.violation('C20:run', {'what': 'two runs in one process differ',
                                           'first': r0, 'second': r1},
                               dict(scn, envs=[]), sig={'where': 'same-process'})
@@ -211,7 +211,8 @@ def execute(scn):
                     res.violation('C20:listing', {'env': {k: v for k, v in env.items() if k != 'history'},
                                                   'history': out['history_log']}, one,
                                   sig={'aborted': 'aborted' in out['history_log']})
-                elif out['runs'][0] != base['runs'][0] or out['runs'][1] != base['runs'][0]:
+                elif out['runs'][0] != base['runs'][0] or out['runs'][1] != base['runs'][0] \
+                        or out['runs'][2] != base['runs'][2] or out['runs'][3] != base['runs'][2]:
                     res.violation('C20:run', {'baseline': base['runs'][0], 'got': out['runs'],
                                               'env': {k: v for k, v in env.items() if k != 'history'}},
                                   one, sig={'where': 'other-process'})
